@@ -470,7 +470,38 @@ def c06(run):
             "non-zero status and no .rst are demanded, and no page may ever be written when the lexer skipped characters")
 
 
+def c04(run):
+    import aggfamily
+    import lexh
+    q = run.tier == "quick"
+    # (a) doccomment re-indentation on the cleaning function
+    doc_tlc(run, "C04", "IndBig", "SomeFirst", "Bodies2x2" if q else "Bodies2x2full", "BothLeaders" if q else "Hash", run.seed, 0)
+    # (b) trivia between tokens does not change the token sequence (RefAgree over the comment-rich menu)
+    c = C05_CONFIGS["comments"]
+    res = lib.run_tlc("MC_C05", gen_cfg(c, maxlen=c[8] if q else c[9]), coverage=False, tags=("BEH", "TRIVIA"))
+    run.add_tlc("MC_C05(comments: same tokens under every trivia)", res)
+    lexh.replay(run, "C04", res.lines.get("BEH", []), run.seed, limit=8000 if q else 60000)
+    cat = res.lines["TRIVIA"][0]
+    trivia = {k: [lexh.concretize(t, run.seed + j)[0] for j, t in enumerate(v)] for k, v in cat.items()}
+    # (c) pairs: every witness program of the aggregator model in a baseline layout and in variant layouts
+    for module, maxlen, maxdepth in ([("MC_C02a", 3, 2), ("MC_C02b", 5, 3), ("MC_C03", 5, 3)] if q else [("MC_C02a", 4, 2), ("MC_C02b", 6, 3), ("MC_C03", 6, 3), ("MC_C09", 5, 2)]):
+        r2 = tlc_agg(run, "%s(len<=%d)" % (module, maxlen), module, cfg([], maxlen, maxdepth))
+        aggfamily.replay_c04(run, r2, trivia, run.seed, limit=700 if q else 8000, nvar=3 if q else 10)
+    run.assumptions += ["trivia only between tokens; at least one whitespace is kept where two arguments would otherwise touch",
+                        "a level-0 bracket comment whose text begins with '[' is CMinx's doccomment opener and not used as a comment",
+                        "CRLF variant compared after deleting CR characters and whitespace-only lines"]
+    return ("(a) TLC checks C04_IndentIrrelevant on the transcription of clean_doc_lines for every block x indentation (also "
+            "with text on the opening line and the @module forms) and every block is replayed as an indented/unindented pair on "
+            "the real function; (b) TLC checks that files built from the same tokens with any trivia of the catalogue (spaces, "
+            "tabs, LF/CRLF, four line-comment shapes, bracket comments of level 0-2 whose text looks like code or doccomment "
+            "delimiters) lex to the same tokens, replayed on the real lexer/parser; (c) every witness program of the aggregator "
+            "model is rendered in a baseline layout and in seeded variant layouts (catalogue trivia between all tokens, "
+            "doccomment blocks re-indented with spaces/tabs, command names re-cased, CRLF) and the pages of the real pipeline "
+            "are compared byte for byte")
+
+
 CHECKS = {p: agg_property for p in AGG}
+CHECKS["C04"] = c04
 CHECKS["C06"] = c06
 CHECKS["C05"] = c05
 CHECKS["C01"] = c01
